@@ -366,6 +366,19 @@ func (check typecheck) constExpr(n *node) error {
 	return nil
 }
 
+// logicalExpr type checks the operands of the && and || operators.
+func (check typecheck) logicalExpr(n *node) error {
+	for _, c := range n.child[:2] {
+		if c.typ == nil {
+			return c.cfgErrorf("invalid operation: operator %v not defined", n.action)
+		}
+		if !isBool(c.typ) {
+			return c.cfgErrorf("invalid operation: operator %v not defined on %s", n.action, c.typ.id())
+		}
+	}
+	return nil
+}
+
 func zeroConst(n *node) bool {
 	return n.typ.untyped && constant.Sign(n.rval.Interface().(constant.Value)) == 0
 }
